@@ -50,6 +50,7 @@ def dispatch (d : DS) (line : String) : DS × String :=
   | "C06" :: rest => let (s, o) := Driver.Chan.handle "C06" d.chan rest; ({ d with chan := s }, o)
   | "C10" :: rest => let (s, o) := Driver.Chan.handle "C10" d.chan rest; ({ d with chan := s }, o)
   | "C11" :: "rf" :: rest => (d, Driver.C11.handle ("rf" :: rest))
+  | "C11" :: "pw" :: rest => (d, Driver.C11.handle ("pw" :: rest))
   | "C11" :: rest => let (s, o) := Driver.Chan.handle "C11" d.chan rest; ({ d with chan := s }, o)
   | "C18" :: "rf" :: rest => (d, Driver.C11.handle18 ("rf" :: rest))
   | "C18" :: "qfill" :: rest => (d, Driver.C11.handle18 ("qfill" :: rest))
